@@ -1,9 +1,12 @@
-import sys, json
-sys.path.insert(0,'/verif')
+#!/usr/bin/env python3
+"""Print the frame obligations of one property for a tree: tools/frames_try.py C16 [repo]  (run with python3-vt)"""
+import json, os, sys
+sys.path.insert(0, os.path.dirname(os.path.dirname(os.path.abspath(__file__))))
+if len(sys.argv) > 2:
+    os.environ["VERIF_REPO"] = sys.argv[2]
+from pyvc import frames, props
 from pyvc.program import Program
-from pyvc import frames
+pid = sys.argv[1]
 prog = Program()
-res = frames.run(prog, "CXX", ["init-before-use","class-level-state","global-purity","silent-only-in-p_error","normalize-only-in-p_id","output-mode-not-read-before-output","file-path-only-under-dump","lexer-reset-complete","tables-append-only"])
-for o in res:
-    if o["status"]!="discharged": print(o["name"], o["status"], json.dumps(o["detail"])[:700])
-print(sum(o["status"]=="discharged" for o in res), "/", len(res), "discharged")
+for o in frames.run(prog, pid, props.PROPS[pid]["frames"]):
+    print(o["status"], o["name"], json.dumps(o["detail"])[:1500])
